@@ -257,8 +257,7 @@ class W(convo.World):
             elif sent:
                 self.violate("store/confirmation-partial", "%s: %d of %d keys of one confirmed upload are flagged uploaded%s"
                              % (when, len(sent), len(lids), " (after a crash during confirmation)" if self.crashed_since_limbo else ""))
-            elif not any(d == "out" and c == limbo["cid"] and n.tag == "iq" and n["id"] == limbo["iq_id"] and n["type"] == "result"
-                         for d, c, n in self.server.log):
+            elif (limbo["cid"], "iq", limbo["iq_id"], "result") not in self.handed_to_stack:
                 # the result was queued but the connection ended before it was delivered (e.g. the client's own reconnect
                 # after an earlier upload result): the keys legitimately stay pending
                 self.probe("upload_result_lost_with_connection")
